@@ -698,7 +698,17 @@ def run_one(tape, only=None):
         def main():
             run.make_set(w["tmpl"], w["ext"], w["kind"], "src")
             for i, o in enumerate(w["ops"]):
-                run.op(i, o)
+                try:
+                    run.op(i, o)
+                except Exception as e:  # noqa: typhon raised in an operation
+                    # of a legal history - a verdict, and the model is void
+                    # from here on
+                    if type(e).__module__.startswith("sim."):
+                        raise
+                    run.V.append(_viol(
+                        f"C11/{o.get('op', '?')}/exception/{type(e).__name__}",
+                        f"op {i} {o}: {type(e).__name__}: {e}"[:400]))
+                    return
             left = os.listdir(os.path.join(root, "tmp"))
             if left:
                 run.V.append(_viol("C11/temp-debris", f"{left[:3]} left in temp dir"))
